@@ -352,3 +352,79 @@ impl<'b, 'a: 'b> FmtVisitor<'a> {
         }
     }
 }
+
+#[cfg(feature = "verif-hooks")]
+pub(crate) mod verif_local {
+    use super::*;
+
+    /// `compare_items`
+    pub(crate) fn compare(a: &ast::Item, b: &ast::Item, context: &RewriteContext<'_>) -> Ordering {
+        compare_items(a, b, context)
+    }
+
+    /// What `ReorderableItemKind::from` reads of an item: the syntactic kind (`e` extern crate,
+    /// `m` mod declaration, `u` use, `o` anything else), `contains_macro_use_attr`, `contains_skip`.
+    pub(crate) fn item_facts(item: &ast::Item) -> (char, bool, bool) {
+        let kind = match item.kind {
+            ast::ItemKind::ExternCrate(..) => 'e',
+            ast::ItemKind::Mod(..) if is_mod_decl(item) => 'm',
+            ast::ItemKind::Use(..) => 'u',
+            _ => 'o',
+        };
+        (
+            kind,
+            contains_macro_use_attr(item),
+            contains_skip(&item.attrs),
+        )
+    }
+
+    fn kind_letter(kind: ReorderableItemKind) -> char {
+        match kind {
+            ReorderableItemKind::ExternCrate => 'e',
+            ReorderableItemKind::Mod => 'm',
+            ReorderableItemKind::Use => 'u',
+            ReorderableItemKind::Other => 'o',
+        }
+    }
+
+    /// `ReorderableItemKind::from` as a letter.
+    pub(crate) fn reorderable_kind(item: &ast::Item) -> char {
+        kind_letter(ReorderableItemKind::from(item))
+    }
+
+    /// The loop of `FmtVisitor::visit_items_with_reordering`, transcribed, recording what each
+    /// iteration does: (`e`|`m`|`u`, n) for a run of n items handed to
+    /// `walk_reorderable_or_regroupable_items` (the real one: n is what it returns), (`s`, 1)
+    /// for an item handed to `visit_item`. A run of length 0 (the real loop would spin) ends
+    /// the walk with (`h`, 0).
+    pub(crate) fn split_groups<'b, 'a: 'b>(
+        visitor: &mut FmtVisitor<'a>,
+        mut items: &[&ast::Item],
+    ) -> Vec<(char, usize)> {
+        let mut res = vec![];
+        while !items.is_empty() {
+            let item_kind = ReorderableItemKind::from(items[0]);
+            if item_kind.is_reorderable(visitor.config) || item_kind.is_regroupable(visitor.config)
+            {
+                let visited_items_num = visitor.walk_reorderable_or_regroupable_items(
+                    items,
+                    item_kind,
+                    item_kind.in_group(visitor.config),
+                );
+                if visited_items_num == 0 {
+                    res.push(('h', 0));
+                    break;
+                }
+                res.push((kind_letter(item_kind), visited_items_num));
+                let (_, rest) = items.split_at(visited_items_num);
+                items = rest;
+            } else {
+                let (item, rest) = items.split_first().unwrap();
+                visitor.visit_item(item);
+                res.push(('s', 1));
+                items = rest;
+            }
+        }
+        res
+    }
+}
